@@ -2430,7 +2430,7 @@ DLLIMPORT int cfg_setbool(cfg_t *cfg, const char *name, cfg_bool_t value)
 
 DLLIMPORT int cfg_opt_setnstr(cfg_opt_t *opt, const char *value, unsigned int index)
 {
-	char *newstr, *oldstr = NULL;
+	char *newstr = NULL, *oldstr;
 	cfg_value_t *val;
 
 	if (!opt || opt->type != CFGT_STR) {
@@ -2438,22 +2438,23 @@ DLLIMPORT int cfg_opt_setnstr(cfg_opt_t *opt, const char *value, unsigned int in
 		return CFG_FAIL;
 	}
 
-	val = cfg_opt_getval(opt, index);
-	if (!val)
-		return CFG_FAIL;
-
-	if (val->string)
-		oldstr = val->string;
-
+	/* Copy first: the caller may hand back a string it got from this very
+	 * option, and looking up the slot releases the values of an option
+	 * that still holds its defaults. */
 	if (value) {
 		newstr = strdup(value);
 		if (!newstr)
 			return CFG_FAIL;
-		val->string = newstr;
-	} else {
-		val->string = NULL;
 	}
 
+	val = cfg_opt_getval(opt, index);
+	if (!val) {
+		free(newstr);
+		return CFG_FAIL;
+	}
+
+	oldstr = val->string;
+	val->string = newstr;
 	if (oldstr)
 		free(oldstr);
 	opt->flags |= CFGF_MODIFIED;
